@@ -28,6 +28,8 @@ import itertools
 
 import beanquery
 from beanquery.parser import ast
+from beanquery import tables as bq_tables
+from beanquery.query_compile import EvalColumn as qc_EvalColumn
 
 from ..harness import HTable, connect, select, F, C, col, crash_fingerprint, typed
 from ..par import Acc, run_shards, mine
@@ -313,6 +315,67 @@ def sweep1(shard, nshards, plan, seed):
     return acc
 
 
+# ---- tables whose ROW OBJECTS are falsy (the unnamed one-row table; scalar rows ending in 0) ---------------
+
+class _ScalarCol(qc_EvalColumn):
+    __slots__ = ()
+
+    def __call__(self, row):
+        return row
+
+
+class _ScalarTable(bq_tables.Table):
+    def __init__(self, rows):
+        self.name = 'z'
+        self.columns = {'x': _ScalarCol(int)}
+        self.rows = list(rows)
+
+    def __iter__(self):
+        return iter(self.rows)
+
+
+def check_falsy_rows(acc, only=None):
+    x = col('x')
+    cnt, sm, mx = F('count', A.Asterisk()), F('sum', x), F('max', x)
+    for rows in ([0], [-2, -1, 0], [2, 1, 0], [0, 0], [0, 1], [1]):
+        if only is not None and rows != only:
+            continue
+        conn = connect(z=_ScalarTable(rows), postings=_ScalarTable(rows))
+        par = lambda v: v % 2
+        stmts = [
+            ('ungrouped', select([(cnt, 'c'), (sm, 's'), (mx, 'm')], from_='z'), [(len(rows), sum(rows), max(rows))]),
+            ('grouped', select([(A.Mod(x, C(2)), 'p'), (cnt, 'c'), (sm, 's')], from_='z', group_by=A.GroupBy([col('p')], None)),
+             [(p, len([r for r in rows if par(r) == p]), sum(r for r in rows if par(r) == p)) for p in dict.fromkeys(par(r) for r in rows)]),
+            ('where', select([(cnt, 'c')], from_='z', where=A.GreaterEq(x, C(0))), [(len([r for r in rows if r >= 0]),)] if [r for r in rows if r >= 0] else []),
+        ]
+        for tag, stmt, exp in stmts:
+            acc.count('executions')
+            acc.count('falsy_row_statements')
+            try:
+                got = conn.execute(stmt).fetchall()
+            except Exception as e:
+                acc.violation(f'crash:{crash_fingerprint(e)}', f'{show(stmt)} on scalar rows {rows!r} raised {type(e).__name__}: {e}', {'kind': 'falsy', 'rows': rows})
+                continue
+            if [tuple(map(typed, r)) for r in got] != [tuple(map(typed, r)) for r in exp]:
+                acc.violation(f'agg:falsy-row-objects|{tag}', f'{show(stmt)} on a table whose rows are the integers {rows!r}: got {got!r}, expected {exp!r}', {'kind': 'falsy', 'rows': rows})
+    # the unnamed one-row table (its single row is None)
+    conn = connect(z=_ScalarTable([1]))
+    conn.tables[''] = bq_tables.NullTable()
+    for tag, stmt, exp in [('null-table', select([(cnt, 'c'), (F('sum', C(3)), 's')], from_=A.Table('')), [(1, 3)]),
+                           ('null-table-grouped', select([(C(7), 'k'), (cnt, 'c')], from_=A.Table(''), group_by=A.GroupBy([1], None)), [(7, 1)])]:
+        if only is not None:
+            break
+        acc.count('executions')
+        acc.count('falsy_row_statements')
+        try:
+            got = conn.execute(stmt).fetchall()
+        except Exception as e:
+            acc.violation(f'crash:{crash_fingerprint(e)}', f'{show(stmt)} raised {type(e).__name__}: {e}', {'kind': 'falsy', 'rows': None})
+            continue
+        if [tuple(map(typed, r)) for r in got] != [tuple(map(typed, r)) for r in exp]:
+            acc.violation(f'agg:falsy-row-objects|{tag}', f'{show(stmt)}: got {got!r}, expected {exp!r}', {'kind': 'falsy', 'rows': None})
+
+
 # ---- sweep 2: every table kind x every ordered pair of hashable columns -------------------------
 
 def ledger_conn():
@@ -402,6 +465,9 @@ def replay(c):
     if c['kind'] == 'pair':
         sweep2_pair(ledger_conn(), c['table'], c['c1'], c['c2'], acc)
         return acc.violations
+    if c['kind'] == 'falsy':
+        check_falsy_rows(acc, only=c['rows'])
+        return acc.violations
     rows = [tuple(r) for r in unjson(c['rows'])]
     vt, twokey = c['vt'], c['twokey']
     t, _ = VTYPES[vt]
@@ -424,6 +490,7 @@ def run(ctx):
         plan = [('int', False, 4), ('decimal', False, 3), ('str', False, 3), ('date', False, 3), ('bool', False, 3), ('int', True, 3), ('decimal', True, 2)]
     acc = run_shards(sweep1, ctx.jobs, plan, ctx.seed)
     acc2 = run_shards(sweep2, ctx.jobs)
+    check_falsy_rows(acc2)
     n = acc.n
     viol = acc.violations + acc2.violations
     cov = {
